@@ -108,6 +108,19 @@ fn run_case(prop: &str, seed: u64) -> CaseOutcome {
         // a slice of the C01 cases are huge-file histories (offsets beyond 2^31, the 4 GiB - 1 limit)
         return huge::huge_case("C01", seed);
     }
+    if prop == "C04" && (seed >> 20) % 16 == 5 {
+        // a slice of the C04 cases: media whose information sector (or the pointer to it) is damaged; if they mount,
+        // writing must stay where the formatter's geometry allows (judged by the mount engine)
+        return mount::mount_case_info(seed);
+    }
+    if prop == "C05" && (seed >> 20) % 256 == 77 {
+        // a slice of the C05 cases: a file of 32768 .. 262144 clusters is deleted; all of them must be free again
+        return huge::huge_case("C05", seed);
+    }
+    if prop == "C07" && is_huge_seed(seed) {
+        // a slice of the C07 cases: two directory entries 4 GiB apart, the file of one of them open
+        return huge::huge_case("C07", seed);
+    }
     match engine_of(prop) {
         "fs-history" => fscheck::fs_case(prop, seed),
         "fs-crash" => crash::crash_case(prop_static(prop).unwrap(), seed),
@@ -132,6 +145,9 @@ fn replay_case(prop: &str, case: &Value) -> Result<CaseOutcome, String> {
     if case.get("huge").is_some() {
         return huge::huge_replay(prop_static(prop).unwrap(), case);
     }
+    if case.get("muts").is_some() && case.get("dev").is_some() {
+        return mount::mount_replay(case);
+    }
     match engine_of(prop) {
         "fs-history" => fscheck::fs_replay(prop, case),
         "fs-crash" => {
@@ -153,7 +169,7 @@ fn minimise_case(prop: &str, case: &Value, sig: &str) -> Value {
     if case.get("huge").is_some() {
         return huge::huge_minimise(prop_static(prop).unwrap(), case, sig);
     }
-    let eng = if case.get("slots").is_some() { "dir-media" } else { engine_of(prop) };
+    let eng = if case.get("slots").is_some() { "dir-media" } else if case.get("muts").is_some() && case.get("dev").is_some() { "mount" } else { engine_of(prop) };
     match eng {
         "fs-history" => {
             let sc: ops::Scenario = match serde_json::from_value(case.clone()) {
@@ -304,7 +320,7 @@ fn cmd_check(prop: &str, tier: &str) -> i32 {
                 return 2;
             }
         };
-        let eng = if case.get("huge").is_some() { "fs-huge" } else if case.get("slots").is_some() { "dir-media" } else { engine_of(prop) };
+        let eng = if case.get("huge").is_some() { "fs-huge" } else if case.get("slots").is_some() { "dir-media" } else if case.get("muts").is_some() && case.get("dev").is_some() { "mount" } else { engine_of(prop) };
         let path = write_replay(prop, seed, idx, &vv, eng, &case, out.ev_hash);
         // replay in a fresh process
         let exe = std::env::current_exe().unwrap();
